@@ -152,7 +152,7 @@ Fixpoint silent_after_comp (u : nat) (w : list (nat * pkt * wres)) : bool :=
 
 Definition c02_ok (c : scenario * obs) : bool :=
   let '(sc, o) := c in
-  negb (ends_stable sc && uids_wf sc && session_kept sc && no_silent sc) ||
+  negb (ends_stable sc && uids_wf sc && session_kept sc && (no_silent sc || c_timeout (sc_cfg sc))) ||
   (negb (o_stuck o)
    && forallb (fun op => negb (is_q2 op) ||
         ((count (uop_uid op) (o_delivered o) =? 1) && silent_after_comp (uop_uid op) (o_wire o)))
